@@ -23,7 +23,7 @@ EXPLANATION = (
     "by every binary operator (T1 constant)"
 )
 ASSUMPTIONS = ["numpy ufuncs named in the map compute the mathematical function of that name elementwise"]
-FLOORS = {"PD": 4, "PD2": 4, "T1": 14, "T12": 34, "V6": 34 + 13, "V7": 6, "G1": 1, "W2": 2, "X3": 9, "X6": 3, "W3": 5}
+FLOORS = {"PD": 4, "PD2": 4, "T1": 14, "T12": 34, "V6": 34 + 13, "V7": 6, "W2": 1, "W3": 5}
 
 # Appendix A.1: strictly decreasing binding strength
 LADDER = [["!", "~"], ["^", "**", ".-", ".+"], ["*", "/", "%"], ["+", "-"], ["and"], ["or"]]
@@ -63,11 +63,7 @@ def run(check: Check) -> None:
     constant_rules(check, table, file)
     method_rules(check, table, by_name, file)
     indicator_rules(check)
-    shunting.g1_pop_rule(check)
     shunting.w2_operand_order(check)
-    shunting.stack_safety(check, "Function.infix_to_postfix")
-    shunting.parse_arity_guard(check)
-    shunting.rejection_checks(check)
     pushdown.infix_to_postfix(check)
     pushdown.parse_postfix(check)
     w3_variables(check)
